@@ -170,10 +170,33 @@ impl Property for C20 {
         };
         // input lines
         let nlines = if rng.chance(1, 8) { 0 } else { rng.small(1, 8) };
+        // now and then a line that makes one argument just under the largest single string
+        // the kernel takes (131072 bytes with its terminator): it fits, so the command runs
+        let near_strlen = if nlines > 0 && rng.chance(1, 60) { Some(rng.usize_below(nlines)) } else { None };
+        if near_strlen.is_some() {
+            let wrap = *rng.pick(&["", "", "[]", "pre-"]);
+            sc.cmd.truncate(1);
+            if rng.chance(1, 2) {
+                sc.cmd.push("first".into());
+            }
+            sc.cmd.push(match wrap {
+                "[]" => format!("[{r}]"),
+                w => format!("{w}{r}"),
+            });
+        }
         let mut input = Vec::new();
         for i in 0..nlines {
             if rng.chance(1, 8) {
                 input.push(sep); // empty line
+            }
+            if near_strlen == Some(i) {
+                let around = sc.cmd.last().map(|a| a.len() - r.len()).unwrap_or(0);
+                let short = *rng.pick(&[1usize, 1, 2, 3, 5, 8, 9, 12, 200]);
+                input.extend(std::iter::repeat(b'L').take(131072 - short - around));
+                if i + 1 < nlines || rng.chance(3, 4) {
+                    input.push(sep);
+                }
+                continue;
             }
             input.extend_from_slice(&gen_line(rng, &r));
             if i + 1 < nlines || rng.chance(3, 4) {
@@ -222,6 +245,10 @@ impl Property for C20 {
             None => vec![b' ', b'\n', b'\t'],
         };
         sc.read_plan = gen_any_plan(rng, &sc.input.0.clone(), cfg.delim.is_none(), &sep);
+        if sc.input.0.len() > 60_000 {
+            // the long-argument family is about sizes, not about chunking
+            sc.read_plan.truncate(400);
+        }
         add_neutral_xargs_opts(rng, &mut sc.opts);
         sc
     }
